@@ -68,6 +68,8 @@ pub enum TyckError {
     RefutableFieldProjectionPattern,
     UnknownDataConstructor(CtorName),
     UnknownCoDataDestructor(DtorName),
+    DuplicateDataConstructor(CtorName),
+    DuplicateCoDataDestructor(DtorName),
     CopatternStepMismatch { expected: CopatternStepKind, found: CopatternStep },
     OverlappingCopatternClauses,
     MultiplePackPiCopatternClauses,
@@ -213,6 +215,12 @@ impl<'a> Tycker<'a> {
             }
             | TyckError::UnknownCoDataDestructor(dtor) => {
                 format!("Unknown codata destructor: .{dtor}")
+            }
+            | TyckError::DuplicateDataConstructor(ctor) => {
+                format!("Duplicate data constructor: +{ctor}")
+            }
+            | TyckError::DuplicateCoDataDestructor(dtor) => {
+                format!("Duplicate codata destructor: .{dtor}")
             }
             | TyckError::CopatternStepMismatch { expected, found } => {
                 format!("Copattern step mismatch: expected {expected}, found {found}")
@@ -547,6 +555,12 @@ impl<'a> Tycker<'a> {
             }
             | TyckError::UnknownCoDataDestructor(dtor) => {
                 format!("Unknown codata destructor `.{dtor}`")
+            }
+            | TyckError::DuplicateDataConstructor(ctor) => {
+                format!("Duplicate data constructor `+{ctor}`")
+            }
+            | TyckError::DuplicateCoDataDestructor(dtor) => {
+                format!("Duplicate codata destructor `.{dtor}`")
             }
             | TyckError::CopatternStepMismatch { expected, found } => {
                 format!("Copattern step mismatch: expected {expected}, found {found}")
